@@ -9,7 +9,7 @@ Import ListNotations.
 Local Open Scope N_scope.
 Ltac Zify.zify_post_hook ::= Z.div_mod_to_equations.
 
-Local Opaque crc32c.
+
 
 Lemma ro_raw_open_flt : forall s a, rp_flt (fst (rp_raw_open s a)) = 0 -> rp_flt s = 0.
 Proof.
